@@ -3,6 +3,7 @@ package props
 import (
 	"context"
 	"fmt"
+	"strings"
 	"sync"
 	"time"
 
@@ -12,6 +13,7 @@ import (
 	"errsim/tape"
 	"errsim/world"
 
+	"github.com/cockroachdb/errors/errorspb"
 	"github.com/cockroachdb/errors/extgrpc"
 	errgrpc "github.com/cockroachdb/errors/grpc"
 	gogostatus "github.com/gogo/status"
@@ -83,6 +85,12 @@ func (c20) Run(t *tape.Tape, tier Tier) *Result {
 	hs = append(hs, handlerErr{"nil", nil, nil})
 	hs = append(hs, handlerErr{"status", grpcstatus.Error(codes.Code(1+t.Draw(20)), "TKUstatusQ message"), nil})
 	hs = append(hs, handlerErr{"gogostatus", gogostatus.Error(codes.Code(1+t.Draw(20)), "TKUgogoQ message"), nil})
+	// a status error that carries details (as a relay passing on a
+	// downstream service's status does)
+	if st, err := gogostatus.New(codes.Code(1+t.Draw(20)), "TKUdetailsQ message").WithDetails(
+		&errorspb.StringsPayload{Details: []string{"d1", "TKUdetQ"}}, &errorspb.StringPayload{Msg: "second"}); err == nil {
+		hs = append(hs, handlerErr{"gogostatus-details", st.Err(), nil})
+	}
 	for _, h := range hs {
 		cl.Set(h.id, h.err)
 	}
@@ -152,8 +160,12 @@ func (c20) Run(t *tape.Tape, tier Tier) *Result {
 			if !ok || got.Code() != want.Code() || got.Message() != want.Message() {
 				res.add(Violation{Prop: "C20", Oracle: "status-passes-through", Culprit: h.id, Expected: fmt.Sprint(want.Code(), " ", want.Message()), Observed: fmt.Sprint(r.err), Where: where})
 			}
+			// code, message and details are those the handler returned
+			if a, b := statusProto(h.err), statusProto(r.err); a != b {
+				res.add(Violation{Prop: "C20", Oracle: "status-passes-through-whole", Culprit: h.id, Expected: short(a), Observed: short(b), Where: where})
+			}
 			// "unchanged": exactly what a client without the interceptor receives
-			if a, b := fmt.Sprintf("%T|%v", r.errNo, r.errNo), fmt.Sprintf("%T|%v", r.err, r.err); a != b {
+			if a, b := fmt.Sprintf("%T|%v|%v", r.errNo, r.errNo, statusProto(r.errNo)), fmt.Sprintf("%T|%v|%v", r.err, r.err, statusProto(r.err)); a != b {
 				res.add(Violation{Prop: "C20", Oracle: "status-passes-through-unchanged", Culprit: h.id, Expected: a, Observed: b, Where: where})
 			}
 		default:
@@ -167,6 +179,10 @@ func (c20) Run(t *tape.Tape, tier Tier) *Result {
 			}
 			direct, p2 := obs.Decode(data)
 			if p2 != "" || direct == nil {
+				continue
+			}
+			if r.err != nil && strings.Contains(r.err.Error(), grpcsim.ServerPanicPrefix) {
+				res.add(Violation{Prop: "C20", Oracle: "server-interceptor-panics", Culprit: "code:" + specGrpcCode(h.spec).String(), Expected: "the handler's error delivered", Observed: short(r.err.Error()), Where: where})
 				continue
 			}
 			if r.err == nil {
@@ -214,7 +230,12 @@ func (c20) Run(t *tape.Tape, tier Tier) *Result {
 			if got := extgrpc.GetGrpcCode(r.err); got != wantCode {
 				res.add(Violation{Prop: "C20", Oracle: "status-code-on-delivered-error", Culprit: "code:" + wantCode.String(), Expected: wantCode.String(), Observed: got.String(), Where: where})
 			}
-			if got := grpcstatus.Code(r.errNo); got != wantCode {
+			if wantCode == codes.OK {
+				// gRPC cannot carry an error under the code OK: what a plain
+				// client sees for an error with an explicitly attached OK is
+				// not determined by the statement
+				res.count("attached-OK-not-representable", 1)
+			} else if got := grpcstatus.Code(r.errNo); got != wantCode {
 				res.add(Violation{Prop: "C20", Oracle: "status-code-for-plain-clients", Culprit: "server-interceptor", Expected: wantCode.String(), Observed: got.String(), Where: where})
 			}
 		}
@@ -246,6 +267,16 @@ func specGrpcCode(n *gen.Node) codes.Code {
 		n = n.Kids[0]
 	}
 	return codes.Unknown
+}
+
+// statusProto renders the whole status message (code, message, details) of
+// a status error.
+func statusProto(err error) string {
+	st, ok := gogostatus.FromError(err)
+	if !ok {
+		return "(not a status)"
+	}
+	return st.Proto().String()
 }
 
 func isStatus(err error) bool {
